@@ -672,6 +672,15 @@ func (b *txBuilder) Build(spec TxSpec) *BuiltTx {
 	}
 	bt := &BuiltTx{Spec: spec, Raw: raw, Sender: senderName, SignedBy: signers, Intact: true, Nonce: tx.Nonce, Chain: chain,
 		GasCoin: uint64(gasCoin), GasPrice: gp, Bytes: spec.Payload + spec.Service, TypeByte: byte(tt), Abs: abs}
+	// sell-all transactions pay their commission in the coin they sell, whatever the gas-coin field says
+	switch spec.Type {
+	case "SellAllCoin":
+		bt.GasCoin = uint64(b.coin(spec.Args["sell"]))
+	case "SellAllSwapPool":
+		if cs := b.coins(spec.Args["coins"]); len(cs) > 0 {
+			bt.GasCoin = uint64(cs[0])
+		}
+	}
 	if !spec.Multi {
 		bt.SignedBy = signers[:1]
 		// a single signature makes the signing key's address the sender, whatever "from" says
